@@ -7,7 +7,7 @@ from pyopenapi_gen import IROperation
 
 from ....context.render_context import RenderContext
 from ....core.utils import NameSanitizer
-from ....core.writers.code_writer import CodeWriter
+from ....core.writers.code_writer import CodeWriter, python_string_literal
 from ..processors.parameter_processor import EndpointParameterProcessor
 from .docstring_generator import EndpointDocstringGenerator
 from .signature_generator import EndpointMethodSignatureGenerator
@@ -131,7 +131,8 @@ class OverloadMethodGenerator:
         param_parts.append(f"{param_info['name']}: {param_info['type']}")
 
         # Add content_type parameter with Literal type
-        param_parts.append(f'content_type: Literal["{content_type}"] = "{content_type}"')
+        content_type_literal = python_string_literal(content_type)
+        param_parts.append(f"content_type: Literal[{content_type_literal}] = {content_type_literal}")
 
         # Get return type from response strategy
         return_type = response_strategy.return_type
